@@ -67,3 +67,19 @@ func (v *VerifSendOne) Call(recvAck uint64, frameNo uint32, data []byte, ack, fi
 	}
 	return res
 }
+
+// VerifWindowAfterAck: a fresh sender put into AIMD with cwndSize = cwnd (white-box injection of the float64
+// congestion window), one 10-byte frame written and acknowledged by the real recvAck (a frame of at most 1000
+// bytes does not change cwndSize, so recvAck only applies its clamp and the uint16 conversion), then two more
+// frames written.  Returns windowSize, and what framesToSend answers for the timer case and for new data.
+func VerifWindowAfterAck(cwnd float64) (window uint16, rtoFrames, newFrames int, ackErr bool) {
+	s := newSender(verifLog())
+	defer s.RetransmitTicker.Stop()
+	s.senderWindow.state = AIMD
+	s.senderWindow.cwndSize = cwnd
+	s.write(make([]byte, 10))
+	_, err := s.recvAck(2)
+	s.write(make([]byte, 10))
+	s.write(make([]byte, 10))
+	return s.senderWindow.windowSize, s.framesToSend(true, 0), s.framesToSend(false, 0), err != nil
+}
